@@ -21,8 +21,11 @@ import time
 
 HERE = os.path.dirname(os.path.abspath(__file__))
 ROOT = os.path.dirname(HERE)
-EVID = os.path.join(ROOT, "evidence")
-REPLAYS = os.path.join(ROOT, "replays")
+# VERIF_OUT redirects evidence and replay files (used by the mutation campaign so that
+# runs against scratch copies never overwrite the evidence of the real tree)
+_OUT = os.environ.get("VERIF_OUT") or ROOT
+EVID = os.path.join(_OUT, "evidence")
+REPLAYS = os.path.join(_OUT, "replays")
 KNOWN = os.path.join(ROOT, "KNOWN_FINDINGS.txt")
 PROPS = ["C%02d" % i for i in range(1, 20)]
 NPROC = min(16, os.cpu_count() or 1)
